@@ -1,3 +1,439 @@
 package main
 
-func runCheck(args []string) {}
+import (
+	"encoding/json"
+	"flag"
+	"fmt"
+	"os"
+	"path/filepath"
+	"runtime"
+	"sort"
+	"strings"
+	"time"
+
+	"golang.org/x/tools/go/ssa"
+)
+
+// ---- known findings / undecided / baseline files (committed under /verif, never written by a check) ----
+
+type Finding struct {
+	Property string `json:"property"`
+	Function string `json:"function"` // short function name as printed in obligation names
+	Kind     string `json:"kind"`     // ensures
+	Label    string `json:"label"`
+	Except   string `json:"except"` // contract expression (post-state env, old() allowed) describing the failing class
+	What     string `json:"what"`
+	Witness  string `json:"witness"`
+	Canary   string `json:"canary,omitempty"`
+}
+
+type FindingsFile struct {
+	Findings []Finding `json:"findings"`
+	Fixed    []string  `json:"fixed"`
+}
+
+type Undecided struct {
+	Group  string `json:"group"`  // obligation group name (prefix match allowed with trailing *)
+	Reason string `json:"reason"`
+}
+
+type BaselineFile struct {
+	// property -> sorted list of obligation group names that discharge on the unchanged tree
+	Groups map[string][]string `json:"groups"`
+	Slow   map[string]float64  `json:"slow"` // group -> seconds (groups only run in the thorough tier)
+}
+
+var verifDir = "/verif"
+
+func loadJSON(path string, v interface{}) bool {
+	b, err := os.ReadFile(path)
+	if err != nil {
+		return false
+	}
+	if err := json.Unmarshal(b, v); err != nil {
+		fmt.Fprintf(os.Stderr, "warning: %s: %v\n", path, err)
+		return false
+	}
+	return true
+}
+
+func (P *Prog) findingsFor(fname string) []Finding {
+	var out []Finding
+	for _, f := range P.findings.Findings {
+		if f.Function == fname {
+			out = append(out, f)
+		}
+	}
+	return out
+}
+
+// ---- evidence ----
+
+type Evidence struct {
+	PropertyID  string                 `json:"property_id"`
+	Tier        string                 `json:"tier"`
+	Seed        int                    `json:"seed"`
+	Level       string                 `json:"level"`
+	Coverage    map[string]interface{} `json:"coverage"`
+	Assumptions []string               `json:"assumptions"`
+	WallS       float64                `json:"wall_s"`
+	Violations  int                    `json:"violations"`
+}
+
+type groupResult struct {
+	Name    string
+	Obls    []*Obligation
+	OK      bool
+	Status  string
+	Time    float64
+	Solvers map[string]int
+}
+
+func runCheck(args []string) {
+	fs := flag.NewFlagSet("check", flag.ExitOnError)
+	repo := fs.String("repo", "/repo", "repository")
+	prop := fs.String("prop", "", "property id")
+	tier := fs.String("tier", "quick", "quick|thorough")
+	updateBaseline := fs.Bool("update-baseline", false, "rewrite the baseline entry of this property (development only)")
+	timeoutFlag := fs.Int("t", 0, "solver timeout override")
+	fs.Parse(args)
+	if *prop == "" {
+		fmt.Fprintln(os.Stderr, "check: -prop required")
+		os.Exit(2)
+	}
+	t0 := time.Now()
+	seed := 0
+	fmt.Sscan(os.Getenv("VERIF_SEED"), &seed)
+	timeout := 20
+	if *tier == "thorough" {
+		timeout = 120
+	}
+	if *timeoutFlag > 0 {
+		timeout = *timeoutFlag
+	}
+	P, err := loadProg(*repo)
+	var loadErr string
+	if err != nil {
+		loadErr = err.Error()
+	} else if err := P.loadContracts(); err != nil {
+		loadErr = err.Error()
+	}
+	var base BaselineFile
+	loadJSON(filepath.Join(verifDir, "obligations.baseline.json"), &base)
+	var undec []Undecided
+	loadJSON(filepath.Join(verifDir, "undecided.json"), &undec)
+	isUndecided := func(g string) (string, bool) {
+		for _, u := range undec {
+			if u.Group == g || (strings.HasSuffix(u.Group, "*") && strings.HasPrefix(g, strings.TrimSuffix(u.Group, "*"))) {
+				return u.Reason, true
+			}
+		}
+		return "", false
+	}
+	workDir := filepath.Join(verifDir, ".work", *prop)
+	os.RemoveAll(workDir)
+	os.MkdirAll(workDir, 0o755)
+	replayDir := filepath.Join(verifDir, "replays", *prop)
+	os.RemoveAll(replayDir)
+
+	var violations []string
+	report := func(obl string, detail string, model bool, extra string) {
+		os.MkdirAll(replayDir, 0o755)
+		path := filepath.Join(replayDir, unsafeName.ReplaceAllString(obl, "_")+".txt")
+		os.WriteFile(path, []byte("failed obligation: "+obl+"\n\n"+detail+"\n"), 0o644)
+		line := fmt.Sprintf("VIOLATION property=%s replay=%s obligation=%s", *prop, path, obl)
+		if extra != "" {
+			line += " " + extra
+		}
+		if !model {
+			line += " no-failing-input-found"
+		}
+		violations = append(violations, line)
+	}
+
+	if loadErr != "" {
+		report("load", "the repository or its contracts could not be loaded: "+loadErr, false, "")
+		finish(*prop, *tier, seed, t0, nil, nil, violations, nil, nil, nil, timeout)
+		return
+	}
+	loadJSON(filepath.Join(verifDir, "known_findings.json"), &P.findings)
+
+	// select functions
+	var fns []*ssa.Function
+	for fn, c := range P.contracts {
+		for _, p := range c.Props {
+			if p == *prop {
+				fns = append(fns, fn)
+			}
+		}
+	}
+	sort.Slice(fns, func(i, j int) bool { return shortFuncName(fns[i]) < shortFuncName(fns[j]) })
+	var results []*FuncResult
+	var all []*Obligation
+	trusted := map[string]bool{}
+	var funcsUnder []map[string]interface{}
+	var assumed []string
+	for _, fn := range fns {
+		c := P.contracts[fn]
+		if c.Trusted != "" {
+			assumed = append(assumed, shortFuncName(fn)+": "+c.Trusted)
+			continue
+		}
+		nobl := 0
+		genErr := ""
+		for _, j := range jobsFor(fn, c, -1) {
+			res := P.verifyFunc(j.fn, j.c, j.cfg, j.has)
+			results = append(results, res)
+			for _, o := range res.Obls {
+				o.SMT = EmitSMT(o.Hyps, o.Goal, "", o.Cover, o.Watch)
+				o.Hyps = nil
+				if o.Group == "" {
+					o.Group = o.Name
+				}
+			}
+			all = append(all, res.Obls...)
+			nobl += len(res.Obls)
+			for _, t := range res.Trusted {
+				trusted[t] = true
+			}
+			if res.Err != "" {
+				genErr = res.Err
+				report(res.Name+"/generate@"+res.Config, "verification conditions could not be generated: "+res.Err, false, "")
+			}
+		}
+		pos := P.prog.Fset.Position(fn.Pos())
+		funcsUnder = append(funcsUnder, map[string]interface{}{"function": shortFuncName(fn), "file": shortFile(pos.Filename), "contract_hash": c.Hash(), "obligations": nobl, "generation_error": genErr})
+	}
+	for _, e := range P.contractErrs {
+		// a contract whose function no longer exists: the proof that carried the property is gone
+		report("contract-binding", e, false, "")
+	}
+	// group obligations; decide which to run in this tier
+	groups := map[string]*groupResult{}
+	var order []string
+	for _, o := range all {
+		g := groups[o.Group]
+		if g == nil {
+			g = &groupResult{Name: o.Group, Solvers: map[string]int{}}
+			groups[o.Group] = g
+			order = append(order, o.Group)
+		}
+		g.Obls = append(g.Obls, o)
+	}
+	var run []*Obligation
+	skippedSlow := 0
+	var undecidedList []string
+	for _, gn := range order {
+		g := groups[gn]
+		if reason, ok := isUndecided(gn); ok {
+			undecidedList = append(undecidedList, gn+": "+reason)
+			g.Status = "undecided"
+			continue
+		}
+		if *tier == "quick" {
+			if _, slow := base.Slow[gn]; slow && !*updateBaseline {
+				skippedSlow++
+				g.Status = "skipped-slow"
+				continue
+			}
+		}
+		run = append(run, g.Obls...)
+	}
+	solveAll(run, workDir, timeout, runtime.NumCPU())
+
+	// verdicts
+	solverTime := 0.0
+	maxTime := 0.0
+	byBackend := map[string]int{}
+	discharged, total := 0, 0
+	var samples []map[string]interface{}
+	var knownLines []string
+	var newGroups []string
+	slowNow := map[string]float64{}
+	for _, gn := range order {
+		g := groups[gn]
+		if g.Status == "undecided" || g.Status == "skipped-slow" {
+			continue
+		}
+		g.OK = true
+		for _, o := range g.Obls {
+			solverTime += o.Time
+			g.Time += o.Time
+			if o.Time > maxTime {
+				maxTime = o.Time
+			}
+			ok := (o.Cover && o.Status == "sat") || (!o.Cover && o.Status == "unsat")
+			if o.Kind == "finding" {
+				// sat = the recorded finding is still present
+				continue
+			}
+			total++
+			if ok {
+				discharged++
+				byBackend[o.Solver]++
+			} else {
+				g.OK = false
+				g.Status = o.Status
+			}
+		}
+		if g.Time > 8 {
+			slowNow[gn] = g.Time
+		}
+		if len(samples) < 6 && g.OK && len(g.Obls) > 0 {
+			o := g.Obls[0]
+			samples = append(samples, map[string]interface{}{"obligation": o.Name, "kind": o.Kind, "verdict": o.Status, "solver": o.Solver, "seconds": o.Time, "note": o.Note, "smt_file": oblFile(workDir, o)})
+		}
+	}
+	// findings
+	for _, gn := range order {
+		g := groups[gn]
+		for _, o := range g.Obls {
+			if o.Kind == "finding" && (o.Status == "sat" || o.Status == "unknown" || o.Status == "timeout") {
+				line := fmt.Sprintf("KNOWN-FINDING: property=%s %s", *prop, o.Note)
+				dup := false
+				for _, l := range knownLines {
+					if l == line {
+						dup = true
+					}
+				}
+				if !dup {
+					knownLines = append(knownLines, line)
+				}
+			}
+		}
+	}
+	// failures
+	for _, gn := range order {
+		g := groups[gn]
+		if g.Status == "undecided" || g.Status == "skipped-slow" || g.OK {
+			continue
+		}
+		for _, o := range g.Obls {
+			if o.Kind == "finding" {
+				continue
+			}
+			ok := (o.Cover && o.Status == "sat") || (!o.Cover && o.Status == "unsat")
+			if ok {
+				continue
+			}
+			detail := fmt.Sprintf("kind: %s\nclause: %s\nconfiguration: %s\nsolver verdict: %s (%s, %.2fs)\nSMT file: %s\n", o.Kind, o.Note, o.Config, o.Status, o.Solver, o.Time, oblFile(workDir, o))
+			hasModel := false
+			if o.Cover {
+				detail += "\nthis is a vacuity guard: the precondition / path must be satisfiable, the solver says it is not\n"
+			} else if o.Status == "sat" {
+				detail += "\ncounter-model (values of parameters, results and watched expressions):\n"
+				for _, kv := range parseValues(o) {
+					detail += fmt.Sprintf("  %-40s = %s\n", kv[0], kv[1])
+				}
+				rp, okr, msg := P.tryReplay(o, replayDir)
+				detail += "\nreplay on the real code: " + msg + "\n"
+				if okr {
+					hasModel = true
+					_ = rp
+				}
+			} else {
+				detail += "\nsolver output:\n" + truncate(o.Model, 2000) + "\n"
+			}
+			report(o.Name, detail, hasModel, "")
+			break // one line per group
+		}
+	}
+	// baseline: every group recorded for this property must still exist
+	present := map[string]bool{}
+	for _, gn := range order {
+		present[gn] = true
+	}
+	if !*updateBaseline {
+		for _, gn := range base.Groups[*prop] {
+			if !present[gn] {
+				if _, ok := isUndecided(gn); ok {
+					continue
+				}
+				report(gn, "this obligation was discharged on the unchanged tree and is no longer generated (function, contract clause or loop disappeared): the proof that carried the property no longer exists", false, "")
+			}
+		}
+		known := map[string]bool{}
+		for _, gn := range base.Groups[*prop] {
+			known[gn] = true
+		}
+		for _, gn := range order {
+			if !known[gn] && !strings.Contains(gn, "/safety:") && !strings.Contains(gn, "/frame:") && !strings.Contains(gn, "/finding:") {
+				newGroups = append(newGroups, gn)
+			}
+		}
+	} else {
+		if base.Groups == nil {
+			base.Groups = map[string][]string{}
+		}
+		if base.Slow == nil {
+			base.Slow = map[string]float64{}
+		}
+		var gs []string
+		for _, gn := range order {
+			g := groups[gn]
+			if g.OK && !strings.Contains(gn, "/safety:") && !strings.Contains(gn, "/frame:") && !strings.Contains(gn, "/finding:") && !strings.Contains(gn, "/cover:") {
+				gs = append(gs, gn)
+			}
+		}
+		sort.Strings(gs)
+		base.Groups[*prop] = gs
+		for gn, t := range slowNow {
+			base.Slow[gn] = float64(int(t*10)) / 10
+		}
+		b, _ := json.MarshalIndent(base, "", " ")
+		os.WriteFile(filepath.Join(verifDir, "obligations.baseline.json"), b, 0o644)
+	}
+	cov := map[string]interface{}{
+		"obligations": total, "discharged": discharged,
+	}
+	finish(*prop, *tier, seed, t0, cov, map[string]interface{}{
+		"functions_under_contract": funcsUnder, "by_backend": byBackend, "solver_time_s": map[string]float64{"sum": round2(solverTime), "max": round2(maxTime)},
+		"samples": samples, "assumed_contracts": assumed, "undecided_clauses": undecidedList, "skipped_slow_groups_in_quick_tier": skippedSlow,
+		"new_groups_not_in_baseline": newGroups, "groups": len(order),
+	}, violations, knownLines, sortedKeys(trusted), P, timeout)
+}
+
+func round2(f float64) float64 { return float64(int(f*100)) / 100 }
+
+func finish(prop, tier string, seed int, t0 time.Time, cov map[string]interface{}, extra map[string]interface{}, violations, known, trusted []string, P *Prog, timeout int) {
+	if cov == nil {
+		cov = map[string]interface{}{"obligations": 0, "discharged": 0}
+	}
+	for k, v := range extra {
+		cov[k] = v
+	}
+	cov["checker_cmd"] = fmt.Sprintf("govc check -prop %s -tier %s  =>  per obligation: z3-new -T:%d f.smt2 | cvc5 --tlimit=%d f.smt2 | z3 -T:%d f.smt2 (first definitive answer)", prop, tier, timeout, timeout*1000, timeout)
+	tb := append([]string{"govc itself (VC generator, memory model, contract language): soundness argued in DESIGN.md, exercised by the must-fail corpus", "SMT solvers z3 5.1.0, cvc5 1.0, z3 4.8.12"}, trusted...)
+	cov["trusted_base"] = tb
+	cov["known_findings"] = known
+	cov["configuration_split"] = "MaxSeat in 2..10 where the contract has a config clause (complete for the property's stated range; nothing is claimed for larger tables)"
+	if _, ok := cov["samples"]; !ok {
+		cov["samples"] = []string{"none"}
+	}
+	ev := Evidence{PropertyID: prop, Tier: tier, Seed: seed, Level: "proof", Coverage: cov, WallS: round2(time.Since(t0).Seconds()), Violations: len(violations)}
+	ev.Assumptions = append(ev.Assumptions, "every function is verified as if it ran alone from a state satisfying its precondition (no interleaving)",
+		"integers are mathematical (no overflow); chip amounts are far below 2^63 in practice but this is not proved",
+		"termination is only established for unrolled loops (unwinding assertions) and loops with a decreases clause")
+	ev.Assumptions = append(ev.Assumptions, trusted...)
+	b, _ := json.MarshalIndent(ev, "", " ")
+	os.MkdirAll(filepath.Join(verifDir, "evidence"), 0o755)
+	os.WriteFile(filepath.Join(verifDir, "evidence", prop+".json"), b, 0o644)
+	for _, k := range known {
+		fmt.Println(k)
+	}
+	for _, v := range violations {
+		fmt.Println(v)
+	}
+	d, _ := cov["discharged"].(int)
+	o, _ := cov["obligations"].(int)
+	fmt.Printf("property %s tier %s: %d/%d obligations discharged, %d violation(s), %d known finding(s), %.1fs\n", prop, tier, d, o, len(violations), len(known), time.Since(t0).Seconds())
+	if len(violations) > 0 {
+		os.Exit(1)
+	}
+	os.Exit(0)
+}
+
+// tryReplay: replays a counter-model against the real code when a replay driver exists for the function.
+func (P *Prog) tryReplay(o *Obligation, dir string) (string, bool, string) {
+	return "", false, "no replay driver for this function (the model is attached above)"
+}
